@@ -42,6 +42,8 @@ Inductive gres :=
 | GOk (s : gstate)                 (* evaluated; the state afterwards *)
 | GCirc (s : gstate) (w : nat)     (* "A circular variable definition was detected" for w; the exception
                                       unwinds without popping: s is the state at the throw *)
+| GDeep (s : gstate) (w : nat)     (* "Infinite recursion was detected" for w: the guard stack has reached the
+                                      nesting limit (only in the variant of the code that has one) *)
 | GFuel.
 
 Definition g_init : gstate := mk_gstate [] [] 0.
@@ -62,7 +64,11 @@ Definition mem (v : nat) (l : list nat) : bool := existsb (Nat.eqb v) l.
 Section Guard.
   Variable mode : guard_search.
   Variable memo : bool.              (* true: variables (value stored); false: attribute sets *)
+  Variable dlimit : option nat.      (* Some L: 'if (m_guardStack.size() >= L) error' in front of the push *)
   Variable deps : nat -> list nat.
+
+  Definition depth_hit (guard : list nat) : bool :=
+    match dlimit with Some L => L <=? length guard | None => false end.
 
   Fixpoint g_eval (fuel : nat) (s : gstate) (v : nat) : gres :=
     match fuel with
@@ -70,6 +76,7 @@ Section Guard.
     | S f =>
       if memo && mem v (g_cache s) then GOk s
       else if guard_hit mode (g_guard s) v then GCirc s v
+      else if depth_hit (g_guard s) then GDeep s v
       else
         match (fix args (ds : list nat) (s : gstate) : gres :=
                  match ds with
@@ -90,9 +97,9 @@ Section Guard.
 End Guard.
 
 (* one transformation that references variable v first: evaluate, then the reset that always follows *)
-Definition g_transform (mode : guard_search) (memo : bool) (deps : nat -> list nat) (n v : nat) : gres * gstate :=
-  let r := g_eval mode memo deps (S n) g_init v in
-  (r, match r with GOk s => g_reset s | GCirc s _ => g_reset s | GFuel => g_init end).
+Definition g_transform (mode : guard_search) (memo : bool) (dlimit : option nat) (deps : nat -> list nat) (n v : nat) : gres * gstate :=
+  let r := g_eval mode memo dlimit deps (S n) g_init v in
+  (r, match r with GOk s => g_reset s | GCirc s _ => g_reset s | GDeep s _ => g_reset s | GFuel => g_init end).
 
 (* graphs given as tables (correspondence driver, examples) *)
 Definition table_deps (t : list (list nat)) (v : nat) : list nat := nth v t [].
